@@ -218,7 +218,7 @@ const RULE: &str = "one run = one generated world (as for C06, plus literal text
 pub fn check(args: &Args) -> i32 {
     let t0 = Instant::now();
     let thorough = args.tier == "thorough";
-    let n = args.runs.unwrap_or(if thorough { 300_000 } else { 10_000 });
+    let n = args.runs.unwrap_or(if thorough { 800_000 } else { 10_000 });
     let seed = args.seed;
     let outs = parallel_map(n, args.workers, move |i| one_run(seed, i));
     let mut stats = Stats::default();
